@@ -128,6 +128,8 @@ type Spec struct {
 	Assumptions []string
 	FaultKinds  []string // counters that are fault kinds (reported even when 0)
 	Probes      []string // counters that are rare-branch probes (flagged when 0)
+	// ReplayAttempts > 1: a replay repeats the plan up to this many times (see Main).
+	ReplayAttempts int
 }
 
 // Report is what a worker writes for cmd/check.
@@ -309,7 +311,7 @@ func execGuard(t *testing.T, spec *Spec, plan any, r *Run) {
 	// hang of the code under test (e.g. a lock cycle, which synctest cannot see as
 	// durably blocked). It is reported like a crash: the worker dies with the
 	// stack of the stuck run, the driver replays the write-ahead plan to confirm.
-	limit := time.Duration(envInt("VERIF_EXEC_TIMEOUT_S", 300)) * time.Second
+	limit := time.Duration(envInt("VERIF_EXEC_TIMEOUT_S", 150)) * time.Second
 	stop := make(chan struct{})
 	go func() {
 		// fires only when the run made NO progress (no counter, trace or fingerprint
@@ -348,8 +350,8 @@ func execGuard(t *testing.T, spec *Spec, plan any, r *Run) {
 					break
 				}
 			}
-			if len(dump) > 20000 {
-				dump = dump[:20000]
+			if len(dump) > 300000 {
+				dump = dump[:300000]
 			}
 			fmt.Fprintf(os.Stderr, "panic: simkit watchdog: run made no progress for %v of real time (hang)\n%s\n\nall goroutines:\n%s\n", limit, frame, dump)
 			os.Exit(3)
@@ -431,6 +433,16 @@ func Main(t *testing.T, spec Spec) {
 			os.WriteFile(cur, b, 0o644)
 		}
 		execGuard(t, &spec, plan, r)
+		// Concurrent scenarios contain Go `select` statements of the code under test with several
+		// ready cases, which the runtime resolves at random: everything else is pinned by the plan.
+		// A replay of such a scenario repeats the identical plan a few times until the recorded
+		// signature shows again.
+		for attempt := 1; attempt < spec.ReplayAttempts && (r.viol == nil || (rf.Sig != "" && r.viol.Sig != rf.Sig)); attempt++ {
+			r = newRun(spec.Prop)
+			plan = spec.NewPlan()
+			json.Unmarshal(rf.Plan, plan)
+			execGuard(t, &spec, plan, r)
+		}
 		rep.Evaluations = 1
 		rep.Replay = &ReplayResult{}
 		if r.viol != nil {
